@@ -96,8 +96,10 @@ def parse_md(s):
             parts = []
             if ps != ".":
                 for pe in ps.split(","):
-                    idx, perr, ld = pe.split("/")
-                    parts.append((Z(idx), Z(perr), Z(ld)))
+                    f = pe.split("/")
+                    ids = lambda x: [] if x == "." else [Z(v) for v in x.split("+")]
+                    extra = (ids(f[3]), ids(f[4]), ids(f[5])) if len(f) > 3 else ([], [], [])
+                    parts.append((Z(f[0]), Z(f[1]), Z(f[2])) + extra)
             topics.append((name(n), Z(err), internal == "1", parts))
     return dict(controller=Z(ctrl), brokers=brokers, topics=topics)
 
@@ -111,7 +113,7 @@ def layout_of(md):
     for n, err, internal, parts in md["topics"]:
         if internal:
             continue
-        topics[n] = (n, err, {idx: (idx, perr, ld) for idx, perr, ld in parts})
+        topics[n] = (n, err, {p[0]: (p[0], p[1], p[2]) for p in parts})
     return dict(controller=md["controller"], brokers=brokers, topics=topics)
 
 
@@ -294,10 +296,37 @@ def enc_md_py(md):
         return ("-%x" % -v) if v < 0 else "%x" % v
     def nm(b):
         return b.hex() if b else "."
+    def ids(l):
+        return "+".join(h(v) for v in l) or "."
     bs = ",".join(f"{h(i)}@{a}" for i, a in md["brokers"]) or "."
-    ts = ";".join(f"{nm(n)}/{h(e)}/{'1' if i else '0'}:" + (",".join(f"{h(x)}/{h(y)}/{h(z)}" for x, y, z in ps) or ".")
+    ts = ";".join(f"{nm(n)}/{h(e)}/{'1' if i else '0'}:" +
+                  (",".join(f"{h(p[0])}/{h(p[1])}/{h(p[2])}/{ids(p[3])}/{ids(p[4])}/{ids(p[5])}" for p in ps) or ".")
                   for n, e, i, ps in md["topics"]) or "."
     return f"{h(md['controller'])}~{bs}~{ts}"
+
+
+def pred_cmeta(a, go, feats):
+    """Client.Metadata compared FIELD BY FIELD with what the brokers answered (restricted to the
+    requested names): brokers (id, host/port/rack token), controller, per topic name / internal /
+    error, per partition id / error / leader / replicas / ISR"""
+    fs = feats.split(",")
+    if "dup-topic" in fs or "dup-broker" in fs or "dup-part" in fs:
+        return []
+    md = filtered(sorted_md(parse_md(a[1])), parse_names(a[0]))
+    def h(v):
+        return ("-%x" % -v) if v < 0 else "%x" % v
+    byid = {i: f"{h(i)}@{ad}" for i, ad in md["brokers"]}
+    eb = lambda i: byid.get(i, "0@0")
+    ebs = lambda l: "+".join(eb(i) for i in l) or "."
+    ts = ";".join(f"{n.hex() if n else '.'}/{'1' if i else '0'}/{h(e)}:" +
+                  (",".join(f"{h(p[0])}/{h(p[1])}/{eb(p[2])}/{ebs(p[3])}/{ebs(p[4])}" for p in ps) or ".")
+                  for n, e, i, ps in md["topics"]) or "."
+    want = f"{eb(md['controller'])}~{','.join(f'{h(i)}@{ad}' for i, ad in md['brokers']) or '.'}~{ts}"
+    if go != want:
+        gp, wp = go.split("~"), want.split("~")
+        which = "controller" if gp[0] != wp[0] else "brokers" if len(gp) < 2 or gp[1] != wp[1] else "topics/partitions (leader, replicas, ISR, errors)"
+        return [(None, f"Client.Metadata differs from what the brokers answered at the last refresh in its {which}: got {go[:300]} expected {want[:300]}")]
+    return []
 
 
 def filtered(md_sorted, names):
@@ -344,7 +373,7 @@ def pred_upd(a, go, feats):
     if "dup-topic" in fs or "dup-broker" in fs or "dup-part" in fs:
         return []
     prev = None
-    for step, st in zip(a, go.split("+")):
+    for step, st in zip(a, go.split("#")):
         md_s, err, layout_s, conns_s, ready = st.split("^")
         if ready != "1":
             return [(None, "update did not mark the pool ready")]
@@ -528,6 +557,19 @@ def pred_e2erec(a, go):
     return out
 
 
+def pred_setup(a, go):
+    """the requests that set a SASL connection up, as journalled by the broker: ApiVersions v0,
+    SaslHandshake at the highest common version, then the raw token exactly when that is 0, else
+    SaslAuthenticate at the highest common version"""
+    table, client = parse_ranges(a[0]), parse_ranges(a[1])
+    hv = expected_version(client, table, 17)
+    want = ["12:0", "11:%x" % hv, "24:raw" if hv == 0 else "24:%x" % expected_version(client, table, 36)]
+    if go.split(",") != want:
+        return [(None, f"connection set-up journal {go}: expected {','.join(want)} (SaslHandshake / SaslAuthenticate at the "
+                       f"highest version supported by both sides)")]
+    return []
+
+
 def pred_e2efu(a, go):
     boot, md1, vers, client, req, ntr, g = Z(a[0]), parse_md(a[2]), parse_vers(a[3]), parse_ranges(a[4]), a[5], Z(a[6]), Z(a[7])
     head, _, tr = go.partition(":")
@@ -557,6 +599,10 @@ def predicates(c):
             return pred_ctl(a, go)
         if op == "class":
             return pred_class(a, go)
+        if op == "cmeta":
+            return pred_cmeta(a, go, c["feats"])
+        if op == "setup":
+            return pred_setup(a, go)
         if op == "prep":
             v, magic = Z(a[0]), Z(go)
             if (magic == 2) != (v >= 3) or magic not in (1, 2):
@@ -611,14 +657,15 @@ def correspondence(ctx):
     e2e = ctx.scale(120, 600)
     rec = ctx.scale(24, 120)
     fu = ctx.scale(6, 30)
+    sasl = ctx.scale(30, 200)
     if getattr(ctx, "search_only_direct", False):
-        n, e2e, rec, fu = 3 * n, 0, 0, 0
+        n, e2e, rec, fu, sasl = 3 * n, 0, 0, 0, 0
     texts = []
     cdir = os.path.join(L.CORPUS, "C12")
     if os.path.isdir(cdir):
         for f in sorted(os.listdir(cdir)):
             texts.append(open(os.path.join(cdir, f)).read())
-    rc, out, err, dt = L.sh([gobin, "-seed", str(ctx.seed), "-n", str(n), "-e2e", str(e2e), "-rec", str(rec), "-fu", str(fu), "-fun", "40"], timeout=3000)
+    rc, out, err, dt = L.sh([gobin, "-seed", str(ctx.seed), "-n", str(n), "-e2e", str(e2e), "-rec", str(rec), "-fu", str(fu), "-fun", "40", "-sasl", str(sasl)], timeout=3000)
     if rc != 0:
         raise L.Fail("correspondence", "harness cmd/c12 crashed", (out[-1500:] + err[-2500:]))
     texts.append(out)
@@ -697,7 +744,11 @@ def correspondence(ctx):
                     "follow within 10 TTLs + 3s and a fetch must go to the new leader. Describe-groups naming 1-4 groups with mostly different "
                     "coordinators: the fake answers NOT_COORDINATOR for groups it does not coordinate and journals the groups of every "
                     "sub-request. Concurrent first use: 40 fresh Transports per scenario, each first used by 4-8 goroutines behind a spin "
-                    "barrier, then a leader move; each transport must send a Metadata request (client id in the journal) and follow. Non-trivial: feature vector other than "
+                    "barrier, then a leader move; each transport must send a Metadata request (client id in the journal) and follow. SASL/PLAIN "
+                    "Transports against brokers advertising SaslHandshake absent/0..0/0..1/1..1/0..3 and SaslAuthenticate absent/0..0/0..1/0..2/1..2/1..1: the "
+                    "set-up requests of every connection as journalled. Client.Metadata (direct over the cache and through the transport) "
+                    "compared field by field, with ISR equal to / shrunk from / reordered against the replicas and racks. e2e phases 4 and 5 "
+                    "re-register a broker under its id at a new address (the old one stops listening) and with a new rack only. Non-trivial: feature vector other than "
                     "the happy-path default; distinct by hash of op+args",
                samples=[c["line"][:300] + " | " + c["go"][:100] for c in cases[:2] + cases[len(cases)//3:len(cases)//3+2]
                         + cases[len(cases)//2:len(cases)//2+2] + cases[-2:]],
@@ -709,6 +760,43 @@ def correspondence(ctx):
                       + json.dumps(rec_hist, sort_keys=True)],
                extra={})
     return out
+
+
+def moved_broker_cases(ctx):
+    """For checks/c19.py: the cases in which a broker keeps its id but is re-registered at a new
+    address or rack (update sequences over mutated answers; e2e phases 4 and 5 with the requests
+    for the partitions it leads), judged like in correspondence()."""
+    gobin = L.go_build("c12")
+    model = L.ocaml_build("c12")
+    rc, out, err, dt = L.sh([gobin, "-seed", str(ctx.seed), "-n", str(ctx.scale(400, 2000)), "-e2e", str(ctx.scale(24, 120)),
+                             "-rec", "0", "-fu", "0", "-sasl", "0"], timeout=1200)
+    if rc != 0:
+        raise L.Fail("correspondence", "harness cmd/c12 crashed", (out[-1500:] + err[-2500:]))
+    cases = []
+    for c in L.parse_cases(out):
+        fs = c["feats"].split(",")
+        if c["go"] == "NOT-RUN":
+            continue
+        if (c["op"] == "upd" and "mutated" in fs) or "moved-broker" in fs or \
+           (c["op"] == "e2efail" and ("phase4" in c["args"] or "phase5" in c["args"])):
+            c["id"] = str(len(cases) + 1)
+            c["line"] = c["id"] + " " + c["op"] + " " + c["args"]
+            cases.append(c)
+    res = L.run_model(model, "\n".join(c["line"] for c in cases) + "\n")
+    failures = []
+    for c in L.diff_cases(cases, res)[:10]:
+        f = classify(c)
+        failures.append(dict(layer=f["layer"], key=f.get("key"), what="C19 queries after a broker moved: " + f["what"],
+                             detail=json.dumps(dict(case=c["line"][:1500], go=c["go"][:400], model=str(c.get("model"))[:400])),
+                             input=dict(case=c["line"], go=c["go"], model=c.get("model")) if f.get("input") is not None else None))
+    for c in cases:
+        for key, what in predicates(c):
+            if key is None and len(failures) < 20:
+                failures.append(dict(layer="property", key=None, what="C19 queries after a broker moved: " + what,
+                                     detail=c["line"][:1500] + " -> " + c["go"][:300], input=dict(case=c["line"], go=c["go"])))
+    ev, dn, hist = L.coverage_counts(cases)
+    return dict(evaluations=ev, distinct_nontrivial=dn, hist=hist, failures=failures,
+                samples=[c["line"][:300] + " | " + c["go"][:100] for c in cases[:3]])
 
 
 def search(ctx, violations):
